@@ -83,10 +83,12 @@ package termincommittee
 //@   | && Signed(tic, pm.content.SignedHeader(), pm.content.Sender())
 //@   | && pm.content.SignedHeader().MessageType() == protocol.LEAN_HELIX_PREPARE && Canonical(pm.content.SignedHeader())
 //@   | && IsMember(tic.committeeMembers, pm.content.Sender().MemberId())
+//@   | && pm.content.SignedHeader().InstanceId() == tic.messageFactory.instanceId
 //@   | && pm.content.Sender().MemberId() != LeaderOf(tic.committeeMembers, pm.content.SignedHeader().View())
 //@ pred CommitOK(tic *TermInCommittee, cm *interfaces.CommitMessage) = cm != nil && cm.content != nil
 //@   | && Signed(tic, cm.content.SignedHeader(), cm.content.Sender())
 //@   | && cm.content.SignedHeader().MessageType() == protocol.LEAN_HELIX_COMMIT && Canonical(cm.content.SignedHeader())
+//@   | && cm.content.SignedHeader().InstanceId() == tic.messageFactory.instanceId
 //@   | && IsMember(tic.committeeMembers, cm.content.Sender().MemberId())
 
 // ---- C11: what a correct node emits, a correct peer in a matching state accepts ----
@@ -192,6 +194,7 @@ package termincommittee
 //@   requires [O8.2.verified] pp != nil && pp.content != nil && Signed(caller, pp.content.SignedHeader(), pp.content.Sender())
 //@   requires [O8.2.signed-type] pp.content.SignedHeader().MessageType() == protocol.LEAN_HELIX_PREPARE
 //@   requires [O3.canonical-header] Canonical(pp.content.SignedHeader())
+//@   requires [O8.2.instance] pp.content.SignedHeader().InstanceId() == caller.messageFactory.instanceId
 //@   requires [O8.2.member] IsMember(caller.committeeMembers, pp.content.Sender().MemberId())
 //@   requires [O8.2.not-from-leader] pp.content.Sender().MemberId() != LeaderOf(caller.committeeMembers, pp.content.SignedHeader().View())
 //@   requires [O8.2.height] pp.content.SignedHeader().BlockHeight() == caller.State.height
@@ -206,6 +209,7 @@ package termincommittee
 //@   requires [O8.3.verified] cm != nil && cm.content != nil && Signed(caller, cm.content.SignedHeader(), cm.content.Sender())
 //@   requires [O8.3.signed-type] cm.content.SignedHeader().MessageType() == protocol.LEAN_HELIX_COMMIT
 //@   requires [O3.canonical-header] Canonical(cm.content.SignedHeader())
+//@   requires [O8.3.instance] cm.content.SignedHeader().InstanceId() == caller.messageFactory.instanceId
 //@   requires [O8.3.member] IsMember(caller.committeeMembers, cm.content.Sender().MemberId())
 //@   requires [O8.3.height] cm.content.SignedHeader().BlockHeight() == caller.State.height
 //@   modifies ghost:cver, ghost:countedC
@@ -342,7 +346,7 @@ package termincommittee
 //@   props C08 C10 C03 C09 C12 C11
 //@   safety iface
 //@   requires TicOK(tic)
-//@   requires [FilterOK] pm != nil && pm.content != nil && pm.content.SignedHeader().BlockHeight() == tic.State.height && pm.content.Sender().MemberId() != tic.myMemberId
+//@   requires [FilterOK] pm != nil && pm.content != nil && pm.content.SignedHeader().BlockHeight() == tic.State.height && pm.content.Sender().MemberId() != tic.myMemberId && pm.content.SignedHeader().InstanceId() == tic.messageFactory.instanceId
 //@   modifies @TIC, ghost:countedP, ghost:countedC
 //@   ensures [C11:O11.2.an-acceptable-prepare-is-counted] old(AcceptsPrepare(tic, pm)) ==> countedP[pm]
 //@   must_fail [C11:vacuity.the-acceptance-condition-is-satisfiable] !old(AcceptsPrepare(tic, pm))
@@ -354,7 +358,7 @@ package termincommittee
 //@   props C08 C10 C03 C09 C12 C11
 //@   safety iface
 //@   requires TicOK(tic)
-//@   requires [FilterOK] cm != nil && cm.content != nil && cm.content.SignedHeader().BlockHeight() == tic.State.height && cm.content.Sender().MemberId() != tic.myMemberId
+//@   requires [FilterOK] cm != nil && cm.content != nil && cm.content.SignedHeader().BlockHeight() == tic.State.height && cm.content.Sender().MemberId() != tic.myMemberId && cm.content.SignedHeader().InstanceId() == tic.messageFactory.instanceId
 //@   modifies @TIC, ghost:countedC
 //@   ensures [C11:O11.2.an-acceptable-commit-is-counted] old(AcceptsCommit(tic, cm)) ==> countedC[cm]
 //@   must_fail [C11:vacuity.the-acceptance-condition-is-satisfiable] !old(AcceptsCommit(tic, cm))
@@ -461,7 +465,7 @@ package termincommittee
 //@   safety iface
 //@   requires TicOK(tic)
 //@   inv GhostInv(tic)
-//@   requires [FilterOK] ppm != nil && ppm.content != nil && ppm.content.SignedHeader().BlockHeight() == tic.State.height && ppm.content.Sender().MemberId() != tic.myMemberId
+//@   requires [FilterOK] ppm != nil && ppm.content != nil && ppm.content.SignedHeader().BlockHeight() == tic.State.height && ppm.content.Sender().MemberId() != tic.myMemberId && ppm.content.SignedHeader().InstanceId() == tic.messageFactory.instanceId
 //@   modifies @TIC, ghost:countedP, ghost:countedC
 //@   assert before call processPreprepare [C07:O7.5.standalone-proposal-only-in-view-0] ppm.content.SignedHeader().View() == 0
 
@@ -559,7 +563,7 @@ package termincommittee
 //@   safety iface
 //@   requires TicOK(tic)
 //@   inv GhostInv(tic)
-//@   requires [FilterOK] nvm != nil && nvm.content != nil && nvm.content.SignedHeader().BlockHeight() == tic.State.height && nvm.content.Sender().MemberId() != tic.myMemberId
+//@   requires [FilterOK] nvm != nil && nvm.content != nil && nvm.content.SignedHeader().BlockHeight() == tic.State.height && nvm.content.Sender().MemberId() != tic.myMemberId && nvm.content.SignedHeader().InstanceId() == tic.messageFactory.instanceId
 //@   modifies @TIC, ghost:countedP, ghost:countedC
 //@   ensures [C11:O11.2.an-acceptable-new-view-is-adopted] old(AcceptsNewView(tic, nvm)) ==> ppStored[nvm.content.SignedHeader().View()] && tic.latestViewThatProcessedVCMOrNVM == nvm.content.SignedHeader().View()
 //@   must_fail [C11:vacuity.the-acceptance-condition-is-satisfiable] !old(AcceptsNewView(tic, nvm))
@@ -622,7 +626,7 @@ package termincommittee
 //@   safety iface
 //@   requires TicOK(tic)
 //@   inv GhostInv(tic)
-//@   requires [FilterOK] vcm != nil && vcm.content != nil && vcm.content.SignedHeader().BlockHeight() == tic.State.height && vcm.content.Sender().MemberId() != tic.myMemberId
+//@   requires [FilterOK] vcm != nil && vcm.content != nil && vcm.content.SignedHeader().BlockHeight() == tic.State.height && vcm.content.Sender().MemberId() != tic.myMemberId && vcm.content.SignedHeader().InstanceId() == tic.messageFactory.instanceId
 //@   modifies @TIC, ghost:countedVC
 //@   ensures [C11:O11.2.an-acceptable-vote-is-counted] old(AcceptsVote(tic, vcm)) ==> countedVC[vcm]
 //@   must_fail [C11:vacuity.the-acceptance-condition-is-satisfiable] !old(AcceptsVote(tic, vcm))
